@@ -52,16 +52,38 @@ TCase == IsEvent("reset") /\ IF C08CaseOK(Cur) THEN TRUE ELSE PrintT(<<"REJECT",
 TNext == TCase
 
 \* ---- diagnosis / classification of (re-executed) rejected cases ---------------------------------------
+(* Classification of the known scratch-bit finding: the rule renders three or more positive match blocks (two
+   or more "if the scratch bit is clear, clear the all-blocks bit" rules), every failing probe is a packet the
+   rule must NOT match but the program takes the action for, and every failure disappears when the scratch bit is
+   cleared after each of those rules (the program that resets the bit between blocks is correct).  Anything else
+   is an ordinary verdict rejection.                                                                       *)
+C08IsFinish(c, r) ==
+    /\ r.a.k = "setmark" /\ NfElems(r.a.clr) = C08Bits(c, "s0") /\ r.a.xor = <<>> /\ r.a.or = <<>>
+    /\ Len(r.m) = 1 /\ r.m[1].k = "mark" /\ NfElems(r.m[1].mask) = C08Bits(c, "s1") /\ r.m[1].val = <<>> /\ ~r.m[1].neg
+RECURSIVE C08Repair(_, _, _)
+C08Repair(c, rs, i) ==
+    IF i > Len(rs) THEN <<>>
+    ELSE (IF C08IsFinish(c, rs[i])
+          THEN <<rs[i], [m |-> <<>>, a |-> [k |-> "setmark", clr |-> c.marks.s1, xor |-> <<>>, or |-> <<>>]]>>
+          ELSE <<rs[i]>>) \o C08Repair(c, rs, i + 1)
+C08Bad(c, P) ==
+    { pm \in RuleProbes(c.rule, c.ipv, c.ipsets) \X C08Marks(c) :
+         ~C08Verdict(c, P, pm[1], pm[2], RuleMatches(c.rule, pm[1], c.ipsets)) }
 C08Diag(c) ==
     IF c.panic # "" THEN <<"CLASS", "panic", c.panic>>
     ELSE LET P == C08Prog(c)
-             bad == { pm \in RuleProbes(c.rule, c.ipv, c.ipsets) \X C08Marks(c) :
-                         ~C08Verdict(c, P, pm[1], pm[2], RuleMatches(c.rule, pm[1], c.ipsets)) }
+             bad == C08Bad(c, P)
              one == CHOOSE pm \in bad : TRUE
              res == RunChain(P, c.ksets, one[1] @@ NfPktDefaults, "rule", one[2])
+             nfinish == Cardinality({ i \in DOMAIN P.chains["rule"] : C08IsFinish(c, P.chains["rule"][i]) })
+             repaired == [P EXCEPT !.chains = ("rule" :> C08Repair(c, P.chains["rule"], 1))]
+             leak == /\ nfinish >= 2
+                     /\ \A pm \in bad : ~RuleMatches(c.rule, pm[1], c.ipsets)
+                     /\ C08Bad(c, repaired) = {}
          IN IF ~NfWellFormed(P, c.ksets) THEN <<"CLASS", "refused", NfRefusals(P, c.ksets)>>
             ELSE IF bad = {} THEN <<"CLASS", "none">>
-            ELSE <<"CLASS", "verdict", PSAction(c.rule), IF RuleMatches(c.rule, one[1], c.ipsets) THEN "hit" ELSE "miss",
+            ELSE <<"CLASS", "verdict", IF leak THEN "multi-positive-block" ELSE PSAction(c.rule),
+                   IF RuleMatches(c.rule, one[1], c.ipsets) THEN "hit" ELSE "miss",
                    "failing probes", Cardinality(bad), "packet", one[1], "mark0", one[2],
                    "result", res.v, res.t, res.st.mark>>
 DCase == IsEvent("reset") /\ PrintT(<<"DIAG", Cur.t, C08Diag(Cur)>>)
